@@ -600,6 +600,11 @@ func ProcessDeleteAlertRequest(ctx *fasthttp.RequestCtx) {
 		utils.SendError(ctx, fmt.Sprintf("Failed to unmarshal json. Error=%v", err), "", err)
 		return
 	}
+	if alertToBeRemoved == nil {
+		// the body was the JSON value null
+		utils.SendError(ctx, "Received empty request", "", nil)
+		return
+	}
 	if _, err := getAlertOfRequest(ctx, alertToBeRemoved.AlertId); err != nil {
 		utils.SendError(ctx, fmt.Sprintf("Failed to delete alert. Error=%v", err), fmt.Sprintf("alert ID: %v", alertToBeRemoved.AlertId), err)
 		return
@@ -637,6 +642,11 @@ func ProcessCreateContactRequest(ctx *fasthttp.RequestCtx, org_id int64) {
 	err := json.Unmarshal(rawJSON, &contactToBeCreated)
 	if err != nil {
 		utils.SendError(ctx, fmt.Sprintf("Failed to unmarshal json. Error=%v", err), "", err)
+		return
+	}
+	if contactToBeCreated == nil {
+		// the body was the JSON value null
+		utils.SendError(ctx, "Received empty request", "", nil)
 		return
 	}
 	contactToBeCreated.OrgId = org_id
@@ -686,6 +696,11 @@ func ProcessUpdateContactRequest(ctx *fasthttp.RequestCtx) {
 		utils.SendError(ctx, fmt.Sprintf("Failed to unmarshal json. Error=%v", err), "", err)
 		return
 	}
+	if contactToBeUpdated == nil {
+		// the body was the JSON value null
+		utils.SendError(ctx, "Received empty request", "", nil)
+		return
+	}
 	err = verifyContactOfRequest(ctx, contactToBeUpdated.ContactId)
 	if err == nil {
 		err = databaseObj.UpdateContactPoint(contactToBeUpdated)
@@ -716,6 +731,11 @@ func ProcessDeleteContactRequest(ctx *fasthttp.RequestCtx) {
 	err := json.Unmarshal(rawJSON, &contact)
 	if err != nil {
 		utils.SendError(ctx, fmt.Sprintf("Failed to unmarshal json. Error=%v", err), "", err)
+		return
+	}
+	if contact == nil {
+		// the body was the JSON value null
+		utils.SendError(ctx, "Received empty request", "", nil)
 		return
 	}
 
